@@ -1,6 +1,7 @@
 #!/usr/bin/env python3
 # Generates MANIFEST.json from the table below (kept as a script so the file stays consistent).
 import json
+T="contract-based deductive verification: weakest-precondition VCs over go/ssa with //@ contracts, discharged by z3/cvc5"
 claimed = {
  "C11": dict(category="proof",
    text="Every obligation generated from the real go/ssa of ObjectRangeRequest.Range (and the other carriers listed in the evidence) is discharged by an SMT solver for all int64 inputs: postconditions against the specification functions specRange*, absence of integer overflow at every arithmetic site, nil-dereference freedom, frame. No bound on any input.",
